@@ -3,6 +3,7 @@ import DiffxVerif.Model.Hunks
 import DiffxVerif.Model.Reader
 import DiffxVerif.Model.Writer
 import DiffxVerif.Model.Lexer
+import DiffxVerif.Model.Heap
 import Driver.Codec
 import Driver.DomCodec
 import Std.Data.HashMap
@@ -264,6 +265,46 @@ def opLex (args : List String) : String :=
     | none => "E bad-args"
   | _ => "E bad-args"
 
+/-! ### heap (C18) -/
+
+def decPath (s : String) : Option Heap.Path :=
+  if s == "m" then some .main else
+  match (s.drop 1).toString.splitOn "f" with
+  | [ci] => ci.toNat?.map .change
+  | [ci, fj] => do pure (.file (← ci.toNat?) (← fj.toNat?))
+  | _ => none
+
+/-- ops: `N` | `C<t>` | `F<t>.<i>` | `M<t>.<path>.<k>` | `P<t>` | `O<t>` | `X<t>.<path>.<o|c|x>` -/
+def decHeapOp (s : String) : Option Heap.Op :=
+  match s.toList with
+  | ['N'] => some .newTree
+  | 'C' :: r => (String.ofList r).toNat?.map .addChange
+  | 'F' :: r => match (String.ofList r).splitOn "." with
+    | [t, i] => do pure (.addFile (← t.toNat?) (← i.toNat?))
+    | _ => none
+  | 'M' :: r => match (String.ofList r).splitOn "." with
+    | [t, p, k] => do pure (.setMeta (← t.toNat?) (← decPath p) (← k.toNat?))
+    | _ => none
+  | 'P' :: r => (String.ofList r).toNat?.map .parse
+  | 'O' :: r => (String.ofList r).toNat?.map .observe
+  | 'X' :: r => match (String.ofList r).splitOn "." with
+    | [t, p, sl] => do
+      let slot ← (if sl == "o" then some Heap.Slot.options else if sl == "c" then some .metaContent
+                  else if sl == "x" then some .metaOptions else none)
+      pure (.mutate (← t.toNat?) (← decPath p) slot)
+    | _ => none
+  | _ => none
+
+/-- `heap <op>…` → per tree the cell of every slot, and the version of every cell -/
+def opHeap (args : List String) : String :=
+  match args.mapM decHeapOp with
+  | some ops =>
+    let s := Heap.run ops
+    let ver (c : Nat) : Nat := (s.versions.lookup c).getD 0
+    let trees := s.trees.map fun t => ",".intercalate ((Heap.treeCells t).map fun c => s!"{c}v{ver c}")
+    " ".intercalate ("R" :: trees)
+  | none => "E bad-args"
+
 /-! ### object model -/
 
 def writerVersion : Text := Text.ofAscii b!"1.0"
@@ -371,6 +412,7 @@ def runOp (s : DState) (toks : List String) : String :=
   | "read" :: args => opRead s.cfg s.tbl args
   | "write" :: args => opWrite s.cfg s.tbl args
   | "lex" :: args => opLex args
+  | "heap" :: args => opHeap args
   | "domwrite" :: args => opDomWrite s.cfg s.tbl args
   | "domread" :: args => opDomRead s.cfg s.tbl args
   | "domstats" :: args => opDomStats s.cfg s.tbl args
